@@ -21,25 +21,31 @@ tvars == <<vars, l>>
 
 TraceInit == Init /\ l = 1 /\ TLCSet(1, 1)
 
-IsEvent(e) == l <= Len(Trace) /\ Trace[l].ev = e /\ l' = l + 1 /\ TLCSet(1, l + 1)
+IsEvent(e) == l <= Len(Trace) /\ Trace[l].ev = e /\ l' = l + 1
+\* high-water mark of the consumed prefix; evaluated last, i.e. only when every guard of the action holds
+Mark == TLCSet(1, l + 1)
 
 TraceReset == /\ IsEvent("Reset")
               /\ markers' = <<>> /\ index' = [t \in Tokens |-> <<>>]
               /\ minPos' = 0 /\ maxPos' = 0 /\ mod' = <<>> /\ inited' = FALSE
               /\ UNCHANGED hist
+              /\ Mark
 
 TraceAdd == /\ IsEvent("Add")
             /\ Add(Trace[l].codes, Trace[l].s, Trace[l].e)
             /\ UNCHANGED hist
+            /\ Mark
 
 TraceAddModule == /\ IsEvent("AddModule")
                   /\ AddModule(Trace[l].codes)
                   /\ UNCHANGED hist
+                  /\ Mark
 
 TraceContains == /\ IsEvent("Contains")
                  /\ Impl(Trace[l].code, Trace[l].pos) = Trace[l].ans
                  /\ Ref(Trace[l].code, Trace[l].pos) = Trace[l].ans
                  /\ UNCHANGED vars
+                 /\ Mark
 
 TraceNext == TraceReset \/ TraceAdd \/ TraceAddModule \/ TraceContains
 
